@@ -158,11 +158,11 @@ theorem namePointers_nf (fc : Facts) (x : Ext) (o : Opts) (s : St) (ops : List (
 
 theorem stripOAIGen_nf (fc : Facts) (x : Ext) (s : St) (hi : s.idx = Analyzer.analyze fc s.doc)
     (hc : s.ctx.newRefs = []) : stripOAIGen fc x s = .ok (s, false) := by
-  unfold stripOAIGen stripPrepare stripInOrder
+  unfold stripOAIGen stripOrder stripPrepare stripInOrder
   obtain ⟨doc, idx, ⟨nrs, res⟩⟩ := s
   simp only at hc hi
   subst hc
-  simp only [List.map_nil, List.foldlM, Bind.bind, Outcome.bind, Pure.pure]
+  simp only [List.map_nil, List.mergeSort_nil, List.foldlM, Bind.bind, Outcome.bind, Pure.pure]
   rw [reload_eq_self fc _ hi]
 
 theorem removeUnused_nf (fc : Facts) (x : Ext) (s : St) (hi : s.idx = Analyzer.analyze fc s.doc)
